@@ -519,7 +519,7 @@ func vC14FrRunInBubble(t *testing.T, c *vh.Case, sc vC14FrScn, target int) *vC14
 
 func TestVerif_C14_fullrt(t *testing.T) {
 	vh.Run(t, vh.Spec{Prop: "C14", Unit: "fullrt", Quick: 50, Thorough: 2000, CostMs: 70,
-		Rule: "PRNG FullRT (providers/values disabled or not, 5-30 simulated peers 30% silent/failing/dead, fake crawler walking them with 1-80 ms per peer every 5-30 vs, provider GC every 0.2-1.1 vs over a journaling store) with 1-5 operations (GetClosestPeers, FindPeer, TriggerRefresh, CheckPeers, Put/Get/SearchValue, Provide, FindProvidersAsync) and 0-4 disconnect events; reference run counts boundary events (crawler steps, wire log, dials, datastore accesses, operation starts/returns), re-runs Close immediately after construction, at 2 events on a background loop's stack and 2 PRNG indices (thorough: all on small scenarios, <= 48); non-trivial = Close while an operation was in flight or a loop busy",
+		Rule:    "PRNG FullRT (providers/values disabled or not, 5-30 simulated peers 30% silent/failing/dead, fake crawler walking them with 1-80 ms per peer every 5-30 vs, provider GC every 0.2-1.1 vs over a journaling store) with 1-5 operations (GetClosestPeers, FindPeer, TriggerRefresh, CheckPeers, Put/Get/SearchValue, Provide, FindProvidersAsync) and 0-4 disconnect events; reference run counts boundary events (crawler steps, wire log, dials, datastore accesses, operation starts/returns), re-runs Close immediately after construction, at 2 events on a background loop's stack and 2 PRNG indices (thorough: all on small scenarios, <= 48); non-trivial = Close while an operation was in flight or a loop busy",
 		Clauses: []string{"baseline-clean", "close-returns-in-bound", "no-loop-after-close", "close-again-returns", "op-returns", "no-goroutine-after-2min", "no-subscription-left", "stores-quiet-after-close"}},
 		func(c *vh.Case) {
 			r := c.R
@@ -566,7 +566,7 @@ func TestVerif_C14_fullrt(t *testing.T) {
 
 func TestVerif_C14_fullrt_ctor(t *testing.T) {
 	vh.Run(t, vh.Spec{Prop: "C14", Unit: "fullrt_ctor", Quick: 40, Thorough: 800, CostMs: 8,
-		Rule: "NewFullRT failing at an enumerated point: fullrt option error, DHT option error, Validate rejection (Amino prefix with a foreign bucket size), failing EventBus Subscribe, failing provider-manager option (native and through DHTOption) after the subscription was taken; oracle: error returned, instance-owned census and live bus subscriptions equal the empty baseline; non-trivial = failure after the subscription",
+		Rule:    "NewFullRT failing at an enumerated point: fullrt option error, DHT option error, Validate rejection (Amino prefix with a foreign bucket size), failing EventBus Subscribe, failing provider-manager option (native and through DHTOption) after the subscription was taken; oracle: error returned, instance-owned census and live bus subscriptions equal the empty baseline; non-trivial = failure after the subscription",
 		Clauses: []string{"ctor-returns-error", "ctor-fail-no-goroutine", "ctor-fail-no-subscription"}},
 		func(c *vh.Case) {
 			r := c.R
